@@ -842,13 +842,8 @@ func checkCase(r *vlib.Run, idx int, res *caseResult) {
 			r.Violation(cfg.Kind+":final-map-differs-from-values", fmt.Sprintf("Map() has %d keys, Value() finds %d", len(res.finalMap), res.finalFound), map[string]any{"case": idx, "cfg": cfg})
 		}
 		if res.finalLen != len(res.finalMap) {
-			cause := "other"
-			for _, rc := range h.recs {
-				if rc.In.Op == opGetOrCreate && rc.Out.FCalled && rc.Out.FSeenB && rc.Out.Err == eCustom {
-					cause = "getorcreate-callback-error"
-				}
-			}
-			if cause == "other" && (hasClose || hasEmpty) {
+			cause := "no-empty-no-close"
+			if hasClose || hasEmpty {
 				cause = "concurrent-empty-or-close"
 			}
 			r.Violation(cfg.Kind+":final-len-ne-keys:"+cause,
@@ -881,16 +876,72 @@ func describe(ops []porcupine.Operation) []string {
 type lenCfg struct {
 	Kind    string   `json:"kind"`
 	Shards  []uint64 `json:"shards"`
+	Mode    string   `json:"ops"` // "mixed" or the one length-updating operation the writers use
 	Writers int      `json:"writers"`
 	Ops     int      `json:"ops_per_writer"`
+	Keys    int      `json:"keys_per_writer"`
 	Empties int      `json:"empties"`
 	Close   bool     `json:"close_at_end"`
+	Slow    bool     `json:"leaf_yields_after_each_update"`
 }
 
+// slowLeaf is a leaf map given to NewShardedMap/NewDeepShardedMap through
+// their newMap parameter: a SingleLockedMap whose updating operations yield
+// the processor after they are done (a slow leaf implementation), i.e. while
+// the sharded map has the leaf's answer but has not yet updated its length.
+type slowLeaf struct {
+	*util.SingleLockedMap[int, uint64]
+}
+
+func pauseLeaf() {
+	runtime.Gosched()
+	runtime.Gosched()
+}
+
+func (s slowLeaf) SetValue(k int, v uint64) bool {
+	defer pauseLeaf()
+	return s.SingleLockedMap.SetValue(k, v)
+}
+
+func (s slowLeaf) RemoveValue(k int) bool {
+	defer pauseLeaf()
+	return s.SingleLockedMap.RemoveValue(k)
+}
+
+func (s slowLeaf) GetOrCreate(k int, f func(uint64, bool) error, create func() (uint64, error)) error {
+	defer pauseLeaf()
+	return s.SingleLockedMap.GetOrCreate(k, f, create)
+}
+
+func (s slowLeaf) Set(k int, f func(uint64, bool) (uint64, error)) (uint64, bool, error) {
+	defer pauseLeaf()
+	return s.SingleLockedMap.Set(k, f)
+}
+
+func (s slowLeaf) Remove(k int, f func(uint64, bool) error) (bool, error) {
+	defer pauseLeaf()
+	return s.SingleLockedMap.Remove(k, f)
+}
+
+func (s slowLeaf) SetOrRemove(k int, f func(uint64, bool) (uint64, bool, error)) (uint64, bool, bool, error) {
+	defer pauseLeaf()
+	return s.SingleLockedMap.SetOrRemove(k, f)
+}
+
+// the six operations of ShardedMap that update its length
+var lenModes = []string{"mixed", "SetValue", "GetOrCreate", "Set", "SetOrRemove", "RemoveValue", "Remove"}
+
+// lenStress: writers on private keys use either a mix of all six
+// length-updating operations (creating and removing outcome of each) or one
+// of them in isolation, while another goroutine calls Empty() (finally
+// Close()). In isolation SetValue/GetOrCreate/Set only create (Empty is what
+// removes), SetOrRemove creates and removes, RemoveValue/Remove remove what
+// SetValue created.
 func lenStress(r *vlib.Run, idx int) {
 	rng := r.Rand(33, idx)
 	cfg := lenCfg{Kind: "ShardedMap", Shards: []uint64{uint64(2 + rng.Intn(15))}}
-	if idx%3 == 2 {
+	cfg.Mode = lenModes[idx%len(lenModes)]
+	if (idx/len(lenModes))%2 == 1 {
 		cfg.Kind = "DeepShardedMap"
 		cfg.Shards = []uint64{2, 2}
 		if rng.Intn(2) == 0 {
@@ -898,15 +949,24 @@ func lenStress(r *vlib.Run, idx int) {
 		}
 	}
 	cfg.Writers = 2 + rng.Intn(7)
-	cfg.Ops = 200 + rng.Intn(400)
-	cfg.Empties = 20 + rng.Intn(100)
-	cfg.Close = idx%4 == 3
+	cfg.Ops = 300 + rng.Intn(500)
+	cfg.Keys = []int{4, 8, 32}[rng.Intn(3)]
+	cfg.Empties = 60 + rng.Intn(200)
+	cfg.Close = rng.Intn(4) == 0
+	cfg.Slow = (idx/(2*len(lenModes)))%3 != 0
+	var newLeaf func() util.LockedMap[int, uint64]
+	if cfg.Slow {
+		cfg.Ops = 100 + rng.Intn(200)
+		newLeaf = func() util.LockedMap[int, uint64] {
+			return slowLeaf{util.NewSingleLockedMap[int, uint64]()}
+		}
+	}
 	var m util.LockedMap[int, uint64]
 	var err error
 	if cfg.Kind == "ShardedMap" {
-		m, err = util.NewShardedMap[int, uint64](cfg.Shards[0], nil)
+		m, err = util.NewShardedMap[int, uint64](cfg.Shards[0], newLeaf)
 	} else {
-		m, err = util.NewDeepShardedMap[int, uint64](cfg.Shards, nil)
+		m, err = util.NewDeepShardedMap[int, uint64](cfg.Shards, newLeaf)
 	}
 	if err != nil {
 		r.Violation("constructor:"+cfg.Kind+":error", err.Error(), cfg)
@@ -914,7 +974,42 @@ func lenStress(r *vlib.Run, idx int) {
 	}
 	var wg sync.WaitGroup
 	start := make(chan struct{})
-	var created, emptied atomic.Int64
+	var created, removed, emptied atomic.Int64
+	do := func(op string, k int, v uint64) {
+		switch op {
+		case "SetValue":
+			if m.SetValue(k, v) {
+				created.Add(1)
+			}
+		case "Set":
+			if _, c, _ := m.Set(k, func(uint64, bool) (uint64, error) { return v, nil }); c {
+				created.Add(1)
+			}
+		case "GetOrCreate":
+			_ = m.GetOrCreate(k, func(_ uint64, c bool) error {
+				if c {
+					created.Add(1)
+				}
+				return nil
+			}, func() (uint64, error) { return v, nil })
+		case "RemoveValue":
+			if m.RemoveValue(k) {
+				removed.Add(1)
+			}
+		case "Remove":
+			if rm, _ := m.Remove(k, func(uint64, bool) error { return nil }); rm {
+				removed.Add(1)
+			}
+		case "SetOrRemove": // creates when absent, removes when present
+			_, c, rm, _ := m.SetOrRemove(k, func(_ uint64, found bool) (uint64, bool, error) { return v, found, nil })
+			if c {
+				created.Add(1)
+			}
+			if rm {
+				removed.Add(1)
+			}
+		}
+	}
 	for w := 0; w < cfg.Writers; w++ {
 		wg.Add(1)
 		wr := r.Rand(33, idx, w)
@@ -922,32 +1017,16 @@ func lenStress(r *vlib.Run, idx int) {
 			defer wg.Done()
 			<-start
 			for j := 0; j < cfg.Ops; j++ {
-				k := w*1000 + wr.Intn(8)
+				k := w*1000 + wr.Intn(cfg.Keys)
 				v := uint64(w+1)<<32 | uint64(j+1)
-				switch wr.Intn(5) {
-				case 0:
-					if m.SetValue(k, v) {
-						created.Add(1)
-					}
-				case 1:
-					_, c, _ := m.Set(k, func(uint64, bool) (uint64, error) { return v, nil })
-					if c {
-						created.Add(1)
-					}
-				case 2:
-					_ = m.GetOrCreate(k, func(_ uint64, c bool) error {
-						if c {
-							created.Add(1)
-						}
-						return nil
-					}, func() (uint64, error) { return v, nil })
-				case 3:
-					_ = m.RemoveValue(k)
+				switch cfg.Mode {
+				case "mixed":
+					do(lenModes[1+wr.Intn(6)], k, v)
+				case "RemoveValue", "Remove":
+					do("SetValue", k, v)
+					do(cfg.Mode, k, v)
 				default:
-					_, c, _, _ := m.SetOrRemove(k, func(_ uint64, found bool) (uint64, bool, error) { return v, found, nil })
-					if c {
-						created.Add(1)
-					}
+					do(cfg.Mode, k, v)
 				}
 			}
 		}(w)
@@ -959,7 +1038,7 @@ func lenStress(r *vlib.Run, idx int) {
 		for j := 0; j < cfg.Empties; j++ {
 			m.Empty()
 			emptied.Add(1)
-			for g := 0; g < 1+j%5; g++ {
+			for g := 0; g < j%4; g++ {
 				runtime.Gosched()
 			}
 		}
@@ -974,9 +1053,11 @@ func lenStress(r *vlib.Run, idx int) {
 		return
 	}
 	l, keys := m.Len(), len(m.Map())
-	r.Case(fmt.Sprintf("len:%s:%v:w%d:o%d:e%d:c%v:created%d", cfg.Kind, cfg.Shards, cfg.Writers, cfg.Ops, cfg.Empties, cfg.Close, created.Load()))
+	r.Case(fmt.Sprintf("len:%s:%v:slow%v:%s:w%d:o%d:k%d:e%d:c%v:created%d:removed%d", cfg.Kind, cfg.Shards, cfg.Slow, cfg.Mode, cfg.Writers, cfg.Ops, cfg.Keys, cfg.Empties, cfg.Close, created.Load(), removed.Load()))
 	r.Count("len_workload_runs", 1)
+	r.Count("len_workload_runs_"+cfg.Mode, 1)
 	r.Count("len_workload_keys_created", int(created.Load()))
+	r.Count("len_workload_keys_removed", int(removed.Load()))
 	r.Count("len_workload_empty_calls", int(emptied.Load()))
 	if idx < 2 {
 		r.Sample(map[string]any{"len_workload": cfg, "final_len": l, "final_keys": keys})
@@ -986,8 +1067,8 @@ func lenStress(r *vlib.Run, idx int) {
 		if cfg.Close {
 			how = "concurrent-empty-then-close"
 		}
-		r.Violation(cfg.Kind+":final-len-ne-keys:"+how,
-			fmt.Sprintf("writers on private keys raced %d Empty() calls (close=%v); after everything returned Len()=%d but Map() has %d keys (%s %v)", cfg.Empties, cfg.Close, l, keys, cfg.Kind, cfg.Shards),
+		r.Violation(cfg.Kind+":final-len-ne-keys:"+how+":ops="+cfg.Mode,
+			fmt.Sprintf("writers on private keys (operations: %s) raced %d Empty() calls (close=%v); after everything returned Len()=%d but Map() has %d keys (%s %v)", cfg.Mode, cfg.Empties, cfg.Close, l, keys, cfg.Kind, cfg.Shards),
 			map[string]any{"cfg": cfg, "len": l, "keys": keys, "idx": idx})
 	}
 }
@@ -1015,7 +1096,7 @@ func lenDirected(r *vlib.Run) {
 func TestC32(t *testing.T) {
 	r := vlib.Start(t, "C32", vlib.LevelExploration)
 	defer r.Finish()
-	r.SetRule("case = one recorded concurrent history: map kind (SingleLockedMap | ShardedMap 2..64 shards | DeepShardedMap [2,2]/[3,4,5] | Locked), key type, 2-16 clients x 3-8 keys x 10-60 ops each (Value, Exists, SetValue, RemoveValue, Get, GetOrCreate, Set, Remove, SetOrRemove, Empty, Close; callbacks succeed / return ErrLockedSetIgnore / return an error and yield the processor), all from the seeded PRNG; plus length workloads (writers on private keys racing Empty/Close) and directed sequential length cases. distinct = map kind + hash of the observed order of call/return events; non-trivial = at least one pair of operations overlapped in time")
+	r.SetRule("case = one recorded concurrent history: map kind (SingleLockedMap | ShardedMap 2..64 shards | DeepShardedMap [2,2]/[3,4,5] | Locked), key type, 2-16 clients x 3-8 keys x 10-60 ops each (Value, Exists, SetValue, RemoveValue, Get, GetOrCreate, Set, Remove, SetOrRemove, Empty, Close; callbacks succeed / return ErrLockedSetIgnore / return an error and yield the processor), all from the seeded PRNG; plus length workloads (writers on private keys racing Empty/Close, using all six length-updating operations mixed and each one in isolation, on sharded and deep-sharded maps, with plain leaves and with leaves (newMap parameter) that yield after each update) and directed sequential length cases. distinct = map kind + hash of the observed order of call/return events; non-trivial = at least one pair of operations overlapped in time")
 	r.Assume("Close and Empty are copied into every key's history (necessary condition for linearizability of the whole map, weaker than the full multi-key check)")
 	r.Assume("in the closed state Get/Remove may report ErrLockedMapClosed or behave as on an empty map; both are accepted")
 	r.Assume("Traverse/Map/Len during the run are checked only for 'every reported pair was offered by some write'")
@@ -1036,6 +1117,6 @@ func TestC32(t *testing.T) {
 		}
 	})
 
-	ln := r.N(300, 3000)
+	ln := r.N(420, 4200)
 	vlib.Parallel(ln, 4, func(i int) { lenStress(r, i) })
 }
